@@ -26,9 +26,9 @@ for p in props:
     ))
 man = dict(
     version=1,
-    setup_cmd="/venv/bin/python -c 'import hypothesis' 2>/dev/null || /venv/bin/pip install --no-index --find-links /opt/veriftools/wheels hypothesis",
+    setup_cmd="(/venv/bin/python -c 'import hypothesis' 2>/dev/null || /venv/bin/pip install --no-index --find-links /opt/veriftools/wheels hypothesis) && (/venv/bin/pip install -q --no-index --find-links /opt/veriftools/wheels --target /verif/.deps atheris >/dev/null 2>&1 || true)",
     hooks=dict(guard="BEYOND_VERIF", enable="no source hooks: every observation point is public API; checks import /repo's working tree directly (VERIF_REPO overrides the location)", baseline_off_cmd="cd /repo && /venv/bin/python -m pytest -ra -q -p no:cacheprovider --timeout=900 --continue-on-collection-errors", source_commits=[], add_only=True),
-    engines=[dict(name="vf", path="vf/", serves_properties=[c["property_id"] for c in checks], kind_free_text="Hypothesis-driven facet runner: seeded shards in fresh processes, JSON cases, shrunk failure = replay file, known-findings predicates, evidence writer")],
+    engines=[dict(name="vf", path="vf/", serves_properties=[c["property_id"] for c in checks], kind_free_text="(atheris in .deps is used only by the thorough tier of C12; its absence is reported as skipped) Hypothesis-driven facet runner: seeded shards in fresh processes, JSON cases, shrunk failure = replay file, known-findings predicates, evidence writer")],
     checks=checks,
     notes="All checks: ./check <id> [--tier quick|thorough] [--replay file]; exit 0 held / 1 VIOLATION / 2 harness error. VERIF_SEED selects the seed. Genuine defects repaired in /repo as 'fix:' commits are listed in KNOWN_FINDINGS.txt as fixed: lines.",
     not_applicable=na,
